@@ -413,7 +413,62 @@ package openapi3
 //@ extend func (*Loader).resolveCallbackRef
 //@   atcall @C02 (*Loader).resolvePathItemRef [nested-refs-resolved-against-the-file-they-are-in] inFileOf(arg_documentPath, documentPath)
 
-// C20: the fragment drill-down of resolveComponent (a function literal) under the no-panic obligations
-//@ func (*Loader).resolveComponent$1
-//@   modifies *
+// C20: the fragment drill-down of resolveComponent (a function literal) under the no-panic
+// obligations. A step of the drill-down can yield a nil pointer inside a non-nil interface (an
+// absent optional object such as a schema without `items`): isNilCursor rejects it, so every object
+// the loop goes on with - and the one it returns - is a real one. What reflect reports for a nil
+// pointer is assumed (isNilCursor's negative answer means: not a nil pointer of one of the types the
+// drill-down looks into).
+//@ spec notNilPointer(v any) bool :=
+//@     (typeof(v) == type *T ==> v.(*T) != nil) && (typeof(v) == type *SchemaRef ==> v.(*SchemaRef) != nil)
+//@  && (typeof(v) == type *Responses ==> v.(*Responses) != nil) && (typeof(v) == type *Callback ==> v.(*Callback) != nil)
+//@  && (typeof(v) == type *Paths ==> v.(*Paths) != nil)
+// what the codecs decode into an `any` is nil or one of the JSON shapes, never a pointer (assumed)
+//@ extend func unmarshal
+//@   defines typeof(v) == type *any ==> notNilPointer(*v.(*any))
+//@ func isNilCursor
+//@   modifies nothing
+//@   ensures [nil-interface-is-nil] cursor == nil ==> result
+//@   defines !result ==> cursor != nil && notNilPointer(cursor)
 //@   tag C20
+//@ func (*Loader).resolveComponent$1
+//@   requires len(fragment) >= 1
+//@   requires cursor == nil || notNilPointer(cursor)
+//@   modifies *
+//@   loop 0 invariant cursor == nil || notNilPointer(cursor)
+//@   loop 0 invariant len(fragment) >= 1
+//@   ensures [finds-an-object-or-fails] result.1 == nil ==> result.0 != nil && notNilPointer(result.0)
+//@   tag C20
+// a successful load yields a document; the resolvers are handed one (scope: `doc` is the document
+// being resolved, never nil - ResolveRefsIn dereferences it first)
+//@ extend func (*Loader).loadFromDataWithPathInternal
+//@   ensures @C20 [success-yields-a-document] result.1 == nil ==> result.0 != nil
+//@ extend func (*Loader).loadFromURIInternal
+//@   ensures @C20 [success-yields-a-document] result.1 == nil ==> result.0 != nil
+//@ extend func (*Loader).resolveRefAndDocument
+//@   assuming @C20 doc != nil
+//@   ensures @C20 [success-yields-a-document] result.3 == nil ==> result.0 != nil
+//@ extend func (*Loader).resolveComponent
+//@   assuming @C20 doc != nil
+//@ extend func (*Loader).resolveHeaderRef
+//@   assuming @C20 doc != nil
+//@ extend func (*Loader).resolveParameterRef
+//@   assuming @C20 doc != nil
+//@ extend func (*Loader).resolveRequestBodyRef
+//@   assuming @C20 doc != nil
+//@ extend func (*Loader).resolveResponseRef
+//@   assuming @C20 doc != nil
+//@ extend func (*Loader).resolveSchemaRef
+//@   assuming @C20 doc != nil
+//@ extend func (*Loader).resolveSecuritySchemeRef
+//@   assuming @C20 doc != nil
+//@ extend func (*Loader).resolveExampleRef
+//@   assuming @C20 doc != nil
+//@ extend func (*Loader).resolveCallbackRef
+//@   assuming @C20 doc != nil
+//@ extend func (*Loader).resolveLinkRef
+//@   assuming @C20 doc != nil
+//@ extend func (*Loader).resolvePathItemRef
+//@   assuming @C20 doc != nil
+//@ extend func (*Loader).resolveEncodingHeaders
+//@   assuming @C20 doc != nil
